@@ -139,7 +139,7 @@ PROPERTIES = {
         "gen_args_thorough": {"crowd3": {"max_n": 200}},
         "parallel": True,
         "rule": "non-dominated fronts of 1..40 points (thorough: ..200), 2..5 objectives: simplex-like and spherical continuous fronts, grid-valued fronts (coordinate and distance ties), a constant objective, tied extremes, badly scaled objectives, fronts with duplicates; n_remove = 0, 1 or uniform in 0..N; each case is evaluated by the compiled raw kernel, the pure-Python raw function, and through get_crowding_function(label).do in a process with and without the compiled extensions; compiled pcd with >= 3 objectives runs in isolated worker processes and only where the Lean kernel model predicts no out-of-bounds index; distinct = hash; non-trivial = more than 2 points and n_remove > 1",
-        "explanation": "theorems cdSorted_wellformed, cdSorted_ends_top, sumExt_wellformed, nnProduct_nonneg, mnnScratch_extremes_top (well-formedness of cd and of the pruning definitions); pcdKernelF_refines / pcdKernelF_safe / pcd_two_objectives: the compiled pcd kernel (functional transcription Metrics/KernelF.lean) returns exactly the published definition and keeps every index in range, for any n_remove, whenever every objective's maximum is attained once and n_remove-1 does not exceed the number of non-extreme points (negations = known findings F2, F3), unconditionally on duplicate-free non-dominated bi-objective fronts; mnnKernelF_safe / mnn_indices_valid: the compiled mnn / 2nn kernel (Metrics/KernelM.lean) never uses an unassigned neighbour slot as an index, for every front and every n_remove (the read at mnn.pyx:207, known finding F4, is the one access outside the statement); not proved: that the mnn kernel computes the definition (it does not on tied distances, known finding F9 of C14). Correspondence: the functional kernels are compared with the statement-by-statement array interpreters (Metrics/Kernel.lean) on every record (bit-equal values, ok <=> no access logged), the interpreters and the definitions with the binary and the pure-Python engine bit for bit (ce: 1e-9), caller's array compared before/after in C / Fortran / strided / integer layouts; definitions checked against an independent greedy reference on tie-free fronts",
+        "explanation": "theorems cdSorted_wellformed, cdSorted_ends_top, sumExt_wellformed, nnProduct_nonneg, mnnScratch_extremes_top (well-formedness of cd and of the pruning definitions); pcdKernelF_refines / pcdKernelF_safe / pcd_two_objectives: the compiled pcd kernel (functional transcription Metrics/KernelF.lean) returns exactly the published definition and keeps every index in range, for any n_remove, whenever every objective's maximum is attained once and n_remove-1 does not exceed the number of non-extreme points (negations = known findings F2, F3), unconditionally on duplicate-free non-dominated bi-objective fronts; mnnKernelF_safe / mnn_indices_valid: the compiled mnn / 2nn kernel (Metrics/KernelM.lean) never uses an unassigned neighbour slot as an index, for every front and every n_remove (the read at mnn.pyx:207, known finding F4, is the one access outside the statement); mnnKernelF_refines (C13i): on every front whose distance rows have no ties (NoTies; its negation is what known finding F9 needs) the compiled mnn / 2nn kernel returns exactly the published definition for any n_remove (simulation: every live non-extreme row of the neighbour table lists the M nearest live points in ascending order; removal + re-insertion of all live candidates re-establishes it; the product over such a row is the product of the order statistics 1..M of the definition's distance row); mnnKernelF_wellformed / mnnKernelF_extremes_top: for every front, ties and duplicates included, the kernel's values are non-negative or +inf and the extremes stay +inf; pcdKernelF_wellformed where the pcd kernel is defined. Correspondence: the driver evaluates NoTies and the conclusion of mnnKernelF_refines on every record; the functional kernels are compared with the statement-by-statement array interpreters (Metrics/Kernel.lean) on every record (bit-equal values, ok <=> no access logged), the interpreters and the definitions with the binary and the pure-Python engine bit for bit (ce: 1e-9), caller's array compared before/after in C / Fortran / strided / integer layouts; definitions checked against an independent greedy reference on tie-free fronts",
         "assumptions": ["Cython semantics: boundscheck=False, wraparound=False make A[i,j] raw pointer arithmetic",
                         "the kernel theorems are about exact ordered-field arithmetic; IEEE rounding is outside them",
                         "known findings F2-F4 are genuine out-of-bounds accesses of the compiled kernels (hypotheses / exclusions of the theorems)"],
@@ -148,7 +148,7 @@ PROPERTIES = {
         "components": [("crowd3", 500, 6000), ("spnn", 200, 30000), ("trunc", 150, 6000)],
         "parallel": True,
         "rule": "non-dominated fronts of 1..40 points (thorough: ..200), 2..5 objectives: simplex-like and spherical continuous fronts, grid-valued fronts (coordinate and distance ties), a constant objective, tied extremes, badly scaled objectives, fronts with duplicates; n_remove = 0, 1 or uniform in 0..N; each case is evaluated by the compiled raw kernel, the pure-Python raw function, and through get_crowding_function(label).do in a process with and without the compiled extensions; compiled pcd with >= 3 objectives runs in isolated worker processes and only where the Lean kernel model predicts no out-of-bounds index; distinct = hash; non-trivial = more than 2 points and n_remove > 1",
-        "explanation": "theorems: the pure-Python engine is the definition itself (Prune.lean is both); cd/ce are engine-independent; pcd_engine_independent / pcdKernelF_refines / pcd_two_objectives: the compiled pcd kernel and the pure-Python pcd return the same values for any n_remove wherever the compiled one is defined (exact arithmetic); C20.secondSmallest_mem for the spacing helper; not proved for mnn / 2nn. The two engines are compared input by input on the real code (values within 1e-9, infinities at the same points; fronts with exactly tied pairwise distances included since session 3, which exposed known finding F9) and each against its own bit-exact Lean model; the compiled spacing helper is compared with the NumPy expression of SpacingIndicator",
+        "explanation": "theorems: the pure-Python engine is the definition itself (Prune.lean is both); cd/ce are engine-independent; pcd_engine_independent / pcdKernelF_refines / pcd_two_objectives: the compiled pcd kernel and the pure-Python pcd return the same values for any n_remove wherever the compiled one is defined (exact arithmetic); mnn_engine_independent / mnnKernelF_refines: the compiled mnn / 2nn kernel and the pure-Python engine return the same values for any n_remove on every front without distance ties (with ties they differ: known finding F9); C20.secondSmallest_mem for the spacing helper. The two engines are compared input by input on the real code (values within 1e-9, infinities at the same points; fronts with exactly tied pairwise distances included since session 3, which exposed known finding F9) and each against its own bit-exact Lean model; the compiled spacing helper is compared with the NumPy expression of SpacingIndicator",
         "assumptions": ["where the compiled pcd kernel is undefined (F2/F3) there is nothing to compare",
                         "compiled mnn (>= 3 neighbours) on fronts with exactly tied distances and n_remove > 1 is known finding F9"],
     },
@@ -158,7 +158,7 @@ PROPERTIES = {
         "gen_args_thorough": {"trunc": {"max_n": 120}},
         "parallel": True,
         "rule": "single non-dominated fronts of 2M+2..36 points (thorough ..120), 2..4 objectives (continuous simplex / sphere fronts, grid-valued, constant objective, tied extremes, duplicates, badly scaled), truncated by RankAndCrowding to n_survive in [2M, N) (two thirds) or [1, N), five metrics, compiled engine in-process (pcd with >= 3 objectives only where the kernel model predicts no out-of-bounds index), a third also in the pure-Python engine in a worker process with the same seed; plus the mixed-front survival records of C03; distinct = hash; non-trivial = a front was cut",
-        "explanation": "theorems take_keeps_top, boundary_retained, cdSorted_top_count, dropped_smallest (+ C13 extremes / well-formedness); greedy pruning: sort_mono, nnProduct_mono, cMnn_mono, mnnFallback_stale_le_live (mnn / 2nn definition), gapF_mono, sumF_mono, pcdFallback_stale_le_live and - through C13.pcdKernelF_refines - pcdKernel_stale_le_live (pcd definition and compiled kernel): every pruned point keeps a value <= every live point's, so truncation_drops_removed applies; not proved for the compiled mnn / 2nn kernel. The n_remove forwarded to the crowding function and the crowding values it returned are checked against the Lean metric models inside every survival record; the dropped set is compared with an independent one-at-a-time pruning reference on tie-free fronts in both engines, down to N - M kept members",
+        "explanation": "theorems take_keeps_top, boundary_retained, cdSorted_top_count, dropped_smallest (+ C13 extremes / well-formedness); greedy pruning: sort_mono, nnProduct_mono, cMnn_mono, mnnFallback_stale_le_live (mnn / 2nn definition), gapF_mono, sumF_mono, pcdFallback_stale_le_live and - through C13.pcdKernelF_refines - pcdKernel_stale_le_live (pcd definition and compiled kernel): every pruned point keeps a value <= every live point's, so truncation_drops_removed applies; for the compiled mnn / 2nn kernel the same follows through C13.mnnKernelF_refines (mnnKernel_stale_le_live) on every front without distance ties. The n_remove forwarded to the crowding function and the crowding values it returned are checked against the Lean metric models inside every survival record; the dropped set is compared with an independent one-at-a-time pruning reference on tie-free fronts in both engines, down to N - M kept members",
         "assumptions": ["descending argsort contract (checked on every record)", "for the compiled mnn / 2nn kernel greedy-pruning equivalence rests on the reference comparison, not on a theorem"],
     },
     "C17": {
